@@ -80,17 +80,20 @@ type Ctx struct {
 	stats      pathStats
 	funcs      map[*ssa.Function]int
 
-	explicitInit bool
-	exts         map[extKey]Value
-	curCallee    *ssa.Function
-	sched        *schedState
-	bigs         map[*Value]*bigState
-	freshSeq     int
-	eqMemo       map[*Term]*Term
-	srcMemo      map[*Term][]*Term
-	numMemo      map[string]numInfo
-	mapOrderMax  int
-	bypass       bool
+	explicitInit      bool
+	exts              map[extKey]Value
+	curCallee         *ssa.Function
+	sched             *schedState
+	bigs              map[*Value]*bigState
+	freshSeq          int
+	eqMemo            map[*Term]*Term
+	srcMemo           map[*Term][]*Term
+	numMemo           map[string]numInfo
+	mapOrderMax       int
+	noTrack           int
+	preemptEverywhere bool
+	maxPreempt        int
+	bypass            bool
 
 	kf         []kfClass
 	viols      []*Violation
